@@ -195,7 +195,7 @@
           (lp (- i 1) (cons (proc (vector-ref vec (- i 1))) res)))))
    ((null? (cdr lov))
     (let ((vec2 (car lov)))
-      (let lp ((i (vector-length vec)) (res '()))
+      (let lp ((i (min (vector-length vec) (vector-length vec2))) (res '()))
         (if (zero? i)
             (list->vector res)
             (lp (- i 1)
